@@ -123,38 +123,7 @@ def run(rep: Report, tier: str) -> None:  # noqa: C901
     _join_model(P, rep, vj)
     transp.builder_contract(P, rep, "R04.2", parts="j")
     # ---- R04.9 removing the alias prefixes after a join never merges two components ----
-    rep.rule("R04.9", "the interpreter's prefix stripping after a join is a one-to-one renaming: two components that strip to the same name are an ambiguity error (1-1-13-9), never merged")
-    from sa import structmodel as _sm9
-    from sa.e6 import Interp as _I9, Raised as _R9, Unmodelled as _U9
-    fsp = P.func("vtlengine.Interpreter.InterpreterAnalyzer._strip_join_prefixes")
-    M9 = _sm9.Model(P)
-
-    def _case(names_roles: List[Tuple[str, str]]) -> Tuple[str, Any]:
-        ds = M9.ds("J", [], [])
-        for nm, role in names_roles:
-            ds.components[nm] = _sm9.MComp(nm, M9.roles[role], M9.number, role != "IDENTIFIER")
-        try:
-            _I9(P, externals={"isinstance": _sm9._isinstance}).call(fsp, {"self": object(), "result": ds})
-        except _R9 as r:
-            return "raise", getattr(r.exc, "code", None)
-        except _U9 as e:
-            raise AnalysisError(f"R04.9: _strip_join_prefixes outside the evaluator's language: {e}")
-        return "ok", ds
-    for label, comps, want in (
-            ("two-identifiers-same-name", [("d1#Id_1", "IDENTIFIER"), ("d4#Id_1", "IDENTIFIER"), ("d1#Me_1", "MEASURE"), ("d4#Me_2", "MEASURE")], "1-1-13-9"),
-            ("two-measures-same-name", [("Id_1", "IDENTIFIER"), ("d1#Me_1", "MEASURE"), ("d2#Me_1", "MEASURE")], "1-1-13-9"),
-            ("measure-and-attribute-same-name", [("Id_1", "IDENTIFIER"), ("d1#X", "MEASURE"), ("d2#X", "ATTRIBUTE")], "1-1-13-9"),
-            ("distinct-names", [("Id_1", "IDENTIFIER"), ("d1#Me_1", "MEASURE"), ("d2#Me_2", "MEASURE")], None)):
-        got = _case(comps)
-        rep.instance("R04.9", f"strip/{label}", nontrivial=True, sample={"components": [c_[0] for c_ in comps], "outcome": got[1] if got[0] == "raise" else sorted(got[1].components)})
-        bad = None
-        if want is not None and not (got[0] == "raise" and got[1] == want):
-            bad = f"is accepted with components {sorted(got[1].components) if got[0] == 'ok' else got}; two components of the join result that differ only in their alias prefix are ambiguous (SemanticError {want})"
-        if want is None and not (got[0] == "ok" and sorted(got[1].components) == sorted(n_.split('#')[-1] for n_, _r in comps) and all(k == c_.name for k, c_ in got[1].components.items())):
-            bad = f"gives {got}; every component must survive under its own unprefixed name"
-        if bad:
-            rep.add(Finding("R04.9", f"R04.9/strip/{label}", fsp.module.rel, fsp.node.lineno, fsp.qualname,
-                            f"a join result with the components {[c_[0] for c_ in comps]} {bad}: for a cross_join (identifiers are not keys) the second component and its values silently disappear"))
+    strip_prefixes_model(P, rep, "R04.9")
     # ---- R04.8 every operand of a join is an input of its statement, whatever its alias is called (dependency analysis, shared with C12) ----
     rep.rule("R04.8", "dependency analysis: a join alias is recorded only after the aliased operand has been visited; join clauses are traversed on every path")
     from sa.checks.c12 import alias_after_operand, traversal_on_every_path
@@ -340,3 +309,41 @@ def _join_model(P: Program, rep: Report, vj: FuncInfo) -> None:  # noqa: C901
                 rep.add(transp.fnd("R04.7", key + "/structure", fbj, fbj.node.lineno,
                                    f"{op}(DS_1, DS_2, DS_3) with aliases {aliases}: semantic analysis names the components {want}, the transpiler's structure of the join (used by the clause body "
                                    f"that follows) has {gotb}: a component qualified by the wrong alias is not found by rename / keep / drop and silently disappears"))
+
+
+def strip_prefixes_model(P: Program, rep: Report, rule: str) -> None:
+    """InterpreterAnalyzer._strip_join_prefixes evaluated on abstract join results.  Shared with C02: the clauses applied after the join body
+    address the components by the names this step leaves - in the dict key AND in the component's own name."""
+    import copy as _copy
+    rep.rule(rule, "the interpreter's prefix stripping after a join is a one-to-one renaming: two components that strip to the same name are an ambiguity error (1-1-13-9), never merged")
+    from sa import structmodel as _sm9
+    from sa.e6 import Interp as _I9, Raised as _R9, Unmodelled as _U9
+    fsp = P.func("vtlengine.Interpreter.InterpreterAnalyzer._strip_join_prefixes")
+    M9 = _sm9.Model(P)
+
+    def _case(names_roles: List[Tuple[str, str]]) -> Tuple[str, Any]:
+        ds = M9.ds("J", [], [])
+        for nm, role in names_roles:
+            ds.components[nm] = _sm9.MComp(nm, M9.roles[role], M9.number, role != "IDENTIFIER")
+        try:
+            _I9(P, externals={"isinstance": _sm9._isinstance, "copy": _copy.copy, "copy.copy": _copy.copy, "deepcopy": _copy.deepcopy, "copy.deepcopy": _copy.deepcopy}).call(fsp, {"self": object(), "result": ds})
+        except _R9 as r:
+            return "raise", getattr(r.exc, "code", None)
+        except _U9 as e:
+            raise AnalysisError(f"{rule}: _strip_join_prefixes outside the evaluator's language: {e}")
+        return "ok", ds
+    for label, comps, want in (
+            ("two-identifiers-same-name", [("d1#Id_1", "IDENTIFIER"), ("d4#Id_1", "IDENTIFIER"), ("d1#Me_1", "MEASURE"), ("d4#Me_2", "MEASURE")], "1-1-13-9"),
+            ("two-measures-same-name", [("Id_1", "IDENTIFIER"), ("d1#Me_1", "MEASURE"), ("d2#Me_1", "MEASURE")], "1-1-13-9"),
+            ("measure-and-attribute-same-name", [("Id_1", "IDENTIFIER"), ("d1#X", "MEASURE"), ("d2#X", "ATTRIBUTE")], "1-1-13-9"),
+            ("distinct-names", [("Id_1", "IDENTIFIER"), ("d1#Me_1", "MEASURE"), ("d2#Me_2", "MEASURE")], None)):
+        got = _case(comps)
+        rep.instance(rule, f"strip/{label}", nontrivial=True, sample={"components": [c_[0] for c_ in comps], "outcome": got[1] if got[0] == "raise" else sorted(got[1].components)})
+        bad = None
+        if want is not None and not (got[0] == "raise" and got[1] == want):
+            bad = f"is accepted with components {sorted(got[1].components) if got[0] == 'ok' else got}; two components of the join result that differ only in their alias prefix are ambiguous (SemanticError {want})"
+        if want is None and not (got[0] == "ok" and sorted(got[1].components) == sorted(n_.split('#')[-1] for n_, _r in comps) and all(k == c_.name for k, c_ in got[1].components.items())):
+            bad = f"gives {({k: c_.name for k, c_ in got[1].components.items()} if got[0] == 'ok' else got)} (key: component name); every component must survive under its own unprefixed name"
+        if bad:
+            rep.add(Finding(rule, f"{rule}/strip/{label}", fsp.module.rel, fsp.node.lineno, fsp.qualname,
+                            f"a join result with the components {[c_[0] for c_ in comps]} {bad}: for a cross_join (identifiers are not keys) the second component and its values silently disappear"))
